@@ -93,3 +93,22 @@ func hC20Register() {
 		}
 	}
 }
+
+// hC20Global: the generated (global) Go types are used for a service only when its descriptor is the very
+// file registered in protoregistry.GlobalFiles and every request/response type resolves in GlobalTypes; a
+// schema that was loaded another way (another descriptor instance under the same path, an unknown path, no
+// parent file, types not registered) gets types built from its own descriptor instead. All 32 registry
+// situations; the native twin builds each with real descriptors in the real registries.
+func hC20Global() {
+	fileNil := verifNondetBool("fileNil")
+	registered := verifNondetBool("pathRegistered")
+	sameFile := verifNondetBool("sameFileInstance")
+	reqKnown := verifNondetBool("requestTypeRegistered")
+	respKnown := verifNondetBool("responseTypeRegistered")
+	svc := c20Schema(fileNil, registered, sameFile, reqKnown, respKnown)
+	got := canUseGlobalTypes(svc)
+	verifObsBool("canUseGlobalTypes", got)
+	verifReach("decided")
+	want := !fileNil && registered && sameFile && reqKnown && respKnown
+	verifAssert(got == want, "C20: global Go types are used only for the very file registered globally with all its types; every other load of a schema resolves types from its own descriptor")
+}
